@@ -1,4 +1,4 @@
-"""C19 - archive search: member enumeration in the whole visit_dir on a scripted file system (bounded)."""
+"""C19 - archive search: member enumeration in the whole visit_dir on a scripted file system (bounded); stored member timestamps (complete on a calendar shim)."""
 from common import *
 W = 'verif_frag::walk::'
 OBLIGATIONS = [
@@ -7,10 +7,12 @@ OBLIGATIONS = [
     ob('C19.members.window', W + 'c19_members_window', 'the same world: an archive outside the depth window contributes no row', units=['walk'], complete=False, bound='1 window'),
     ob('C19.corrupt', W + 'c19_corrupt', 'the same world: an archive that cannot be opened is listed as a file and skipped, an unreadable member is skipped and the next one reported - no abort, no other row lost', units=['walk'], complete=False, bound='2 fault scenarios'),
     ob('C19.limit', W + 'c06_walk_limit_archive', 'the same world, every limit 0..8: members count towards LIMIT like ordinary rows, also when the limit is reached inside an archive (same harness as C06.walk.limit.archive)', units=['walk'], complete=False, bound='limit 0..8'),
+    ob('C19.zipdate', 'verif_frag::zipdate::c19_zipdate', 'the WHOLE real to_local_datetime (verbatim on a calendar shim with a scripted clock): for EVERY current date and time and EVERY stored timestamp naming an existing date (1980..2107, 29 February included) the value has exactly the stored year, month, day, hour, minute and second - it does not depend on the day the search runs, and nothing panics', units=['zipdate']),
+    ob('C19.zipdate.total', 'verif_frag::zipdate::c19_zipdate_total', 'the same function: for every current date and ANY stored bit fields (month 0, day 31 in a short month, hour 31 ...) it returns without a panic, so a damaged timestamp does not abort the search', units=['zipdate']),
     ob('C19.mode', 'verif_frag::status::c10_status', 'placeholder', units=['status']),
 ]
 OBLIGATIONS = OBLIGATIONS[:-1]
-CANARIES = [dict(harness=W + 'canary_walk_must_fail', units=['walk'])]
+CANARIES = [dict(harness=W + 'canary_walk_must_fail', units=['walk']), dict(harness='verif_frag::zipdate::canary_zipdate_must_fail', units=['zipdate'])]
 ASSUMPTIONS = ['the scripted file system stands for the OS and the zip crate: ZipArchive::new / len / by_index enumerate the members of the archive']
-NOT_COVERED = ['the member columns (name, size, directory flag, unix mode, modification time: to_file_info over the zip crate; zip-entry mode decoding is proved under C04)', 'which file names count as archives (is_zip_archive: has_extension is proved under C04, the configured list is not)', 'real, nested or truncated archives']
+NOT_COVERED = ['the member columns name, size, directory flag, unix mode and how to_file_info reads the timestamp from the zip crate (the conversion of the stored timestamp is C19.zipdate; zip-entry mode decoding is proved under C04)', 'which file names count as archives (is_zip_archive: has_extension is proved under C04, the configured list is not)', 'real, nested or truncated archives']
 HARNESS_TIMEOUT = 900
